@@ -33,6 +33,8 @@ def faults_for(kind, auto=False):
         f.append(F('word_count', INITED))
     if kind == 'dpa':
         f += [F('dpa_nonbinary', FIRST), F('dpa_float_data', FIRST)]
+    if kind in ('part', 'mia', 'tplb'):
+        f.append(F('class_float_data', ANY))          # refused by the class lookup inside _update, also as very first call (after _initialize)
     if kind == 'tplb':
         f.append(F('tpl_two_words', ANY))
     if kind in ('tplm', 'tpld'):
@@ -66,6 +68,8 @@ def inject(ad, fault, rows, pos):
         args = (t, d2)
     elif name == 'dpa_float_data':
         args = (t, d.astype('float64'))
+    elif name == 'class_float_data':
+        args = (t, (d % 8).astype('float64'))          # small values: a class set derived from THIS batch would be the 9-class one
     elif name == 'tpl_two_words':
         args = (t, np.concatenate([d, d], axis=1))
     elif name == 'match_wrong_trace_size':
@@ -96,12 +100,14 @@ def make_cases(rng, tier):
 
     def add(label, c, subs=(None,), tmin=0, tmax=15, combos=(), auto=False, dvals=None):
         rows = dh.random_rows(rng, c, n, tmax=tmax, tmin=tmin, dvals=dvals)
-        cs.append({'label': label, 'c': c, 'rows': rows, 'faults': faults_for(c['kind'], auto), 'subs': list(subs), 'combos': list(combos), 'auto': auto})
+        cs.append({'label': label, 'c': c, 'rows': rows, 'faults': faults_for(c['kind'], auto), 'subs': list(subs), 'combos': list(combos), 'auto': auto, 'dvals': dvals})
     two = [('float32', 'u8'), ('float64', 'f64q')]
     add('cpa', dh.base_cfg('cpa', S=2, W=2), subs=('std', 'alt'), combos=two)
     add('dpa', dh.base_cfg('dpa', S=2, W=2), combos=two)
     add('part', dh.base_cfg('part', S=2, W=2, classes=(0, 1, 2)), subs=('anova', 'snr') if tier == 'quick' else ('anova', 'nicv', 'snr'), combos=[('float32', 'i16')])
     add('part-auto', dh.base_cfg('part', S=1, W=1, classes=tuple(range(9))), subs=('nicv',), combos=[('float32', 'i16')], auto=True, dvals=list(range(9)))
+    add('part-auto64', dh.base_cfg('part', S=1, W=1, classes=tuple(range(64))), subs=('anova',), combos=[('float64', 'u8')], auto=True, dvals=[20, 41, 63, 10, 33])
+    add('mia-auto64', dh.base_cfg('mia', S=1, W=1, classes=tuple(range(64)), lo=0, width=4, nb=4), tmax=16, combos=[('uint32', 'u8')], auto=True, dvals=[20, 41, 63, 10, 33])
     add('mia', dh.base_cfg('mia', S=2, W=1, classes=(0, 1, 2), lo=0, width=4, nb=4), tmax=16, combos=[('uint32', 'u8')])
     add('tplb', dh.base_cfg('tplb', S=2, W=1, classes=(0, 1, 2)), combos=[('float32', 'u8')])
     add('tplm', dh.base_cfg('tplm', S=2, W=1, classes=(0, 1), tpl=[[1, 2], [3, 1]], ainv=[[2, 1], [1, 3]]), tmax=9, combos=two)
@@ -130,7 +136,11 @@ def kmodel(chk):
     chk.add_tlc('K:update-step-order(pinned, must be refuted)', r2)
     if not r2.violated:
         raise tlc.TLCError('DistinguisherK lost sensitivity: the pinned step order is no longer refuted')
-    chk.extra['k_model'] = {'fixed': 'all invariants hold', 'pinned_refuted_by': r2.violated}
+    r3 = tlc.run('DistinguisherK', cfg_text=cfgt.format(v='marker', c=calls), workers=1)
+    chk.add_tlc('K:update-step-order(marker-only rollback, must be refuted)', r3)
+    if not r3.violated:
+        raise tlc.TLCError('DistinguisherK lost sensitivity: rolling back only the marker (derived class set left behind) is no longer refuted')
+    chk.extra['k_model'] = {'fixed': 'all invariants hold', 'pinned_refuted_by': r2.violated, 'marker_only_refuted_by': r3.violated}
 
 
 def run(chk):
@@ -192,7 +202,7 @@ def recorded(chk, rng, cases):
     for i in range(ntr):
         case = cases[i % len(cases)]
         c = case['c']
-        rows = dh.random_rows(rng, c, rng.randint(3, 12), tmax=15, dvals=list(range(9)) if case['auto'] else None)
+        rows = dh.random_rows(rng, c, rng.randint(3, 12), tmax=15, dvals=case.get('dvals') or (list(range(9)) if case['auto'] else None))
         prec, pres = case['combos'][i % len(case['combos'])]
         sub = case['subs'][i % len(case['subs'])]
         from ..dist import Adapter
